@@ -465,6 +465,59 @@ func (s *Solver) Check(assertions []*Term, wantModel bool) (Result, map[string]*
 	if res == Sat && wantModel {
 		vars := s.ts.VarsCut(s.cut, as...)
 		model = map[string]*big.Int{}
+		// interpretation of uninterpreted functions at the points the query uses them
+		var ufNodes []*Term
+		for _, t := range cone {
+			if t.op == OpUF {
+				ufNodes = append(ufNodes, t)
+			}
+		}
+		for i := 0; i < len(ufNodes) && !s.dead; i += 40 {
+			j := i + 40
+			if j > len(ufNodes) {
+				j = len(ufNodes)
+			}
+			var q strings.Builder
+			var order []*Term
+			q.WriteString("(get-value (")
+			for _, u := range ufNodes[i:j] {
+				order = append(order, u)
+				q.WriteString(s.ref(u) + " ")
+				for _, a := range u.args {
+					order = append(order, a)
+					q.WriteString(s.ref(a) + " ")
+				}
+			}
+			q.WriteString("))\n")
+			s.send(q.String())
+			txt, err := s.readSexp()
+			if err != nil {
+				s.dead = true
+				break
+			}
+			vals := parseValueList(txt)
+			if len(vals) != len(order) {
+				continue
+			}
+			k := 0
+			for _, u := range ufNodes[i:j] {
+				res := vals[k]
+				k++
+				key := "uf:" + u.name + ":"
+				for ai, a := range u.args {
+					if ai > 0 {
+						key += ","
+					}
+					h := vals[k].Text(16)
+					for len(h) < (a.w+3)/4 {
+						h = "0" + h
+					}
+					key += h
+					k++
+				}
+				model[key] = res
+			}
+		}
 		// fetch in chunks
 		for i := 0; i < len(vars); i += 200 {
 			j := i + 200
@@ -603,6 +656,62 @@ func parseModel(txt string, vars []*Term, model map[string]*big.Int) {
 		}
 		i = e
 	}
+}
+
+// parseValueList parses ((expr value) (expr value) ...) into the values in order.
+func parseValueList(txt string) []*big.Int {
+	var out []*big.Int
+	depth := 0
+	i := 0
+	n := len(txt)
+	for i < n {
+		c := txt[i]
+		switch c {
+		case '(':
+			depth++
+			if depth == 2 {
+				// one (expr value) pair: find its end
+				d, j := 1, i+1
+				for j < n && d > 0 {
+					if txt[j] == '(' {
+						d++
+					} else if txt[j] == ')' {
+						d--
+					}
+					j++
+				}
+				pair := strings.TrimSpace(txt[i+1 : j-1])
+				// the value is the last token or the last parenthesised group
+				var val string
+				if strings.HasSuffix(pair, ")") {
+					d, k := 0, len(pair)-1
+					for k >= 0 {
+						if pair[k] == ')' {
+							d++
+						} else if pair[k] == '(' {
+							d--
+							if d == 0 {
+								break
+							}
+						}
+						k--
+					}
+					val = pair[k:]
+				} else {
+					f := strings.Fields(pair)
+					val = f[len(f)-1]
+				}
+				out = append(out, parseSmtValue(val))
+				i = j
+				depth = 1
+				continue
+			}
+		case ')':
+			depth--
+		}
+		i++
+	}
+	return out
 }
 
 func parseSmtValue(v string) *big.Int {
